@@ -42,6 +42,9 @@ CHECKS = {
  "C09": dict(cat="proof", tech="machine-checked proof in Coq + extracted-model/implementation correspondence on restart / power-cycle histories",
    text="11 Coq theorems about a model of the storage bookkeeping (globals, instance heap, instance ids resolved at build time, retain snapshot): a warm restart keeps exactly the RETAIN globals and program variables and re-initialises the rest; a cold restart yields the state of a newly built runtime (variables, instance ids, time, cycle counter, fault latch); after ANY history the instance id held by a binding is still the program's instance, so a binding reads the variable; a power cycle through the store preserves the same variables as a warm restart; the allocate-new-instances restart and the globals-only store are refuted by witnesses. Tied to runtime/restart.rs and retain_store.rs by generated qualifier x scope configurations and histories of cycles, external writes, cold/warm restarts, save + new runtime + load through FileRetainStore and faults, with all variables, %QW words, time and fault latch compared after every operation; an independent judge written from the property text checks the implementation's observations.",
    note="Program execution is a parameter of the model; only INT variables and direct-address bindings are generated; the process image is treated as environment (a restart does not clear it)."),
+ "C17": dict(cat="proof", tech="machine-checked proof in Coq over all schedules of a transition-system model of the debugger + trace conformance of real two-thread runs against the extracted model",
+   text="The shared debugger state (mode, pending stop, step entry, target / current thread, last call depths) and its three actors - statement hook with its Condvar wait loop, control actions, task switch - are a labelled transition system (Model/Debug.v) whose atomic segments are the critical sections of debug/control.rs. 7 Coq theorems hold for EVERY schedule: exactly one stop notification per pause and the thread parks only after sending it; no lost wake-up (whenever the wait condition is false a notification is in flight, and every continue/step issued at a stop un-parks the thread); step-over/out never stop deeper than their origin, which is the depth the thread is parked at; step-in stops at the very next statement; the product with any program is transparent. Tied to the code by the debugger's own trace (written under the state mutex): real runs of a cycle thread against a racing controller thread are replayed event by event through the extracted model; plus differential final state against an undebugged run, timed un-parking after each resume, and stop-channel counts.",
+   note="Partial for the runtime side: OS scheduling decides which interleavings a run exhibits; breakpoint conditions/log points are an oracle; user writes and the DAP adapter are not modelled."),
 }
 REASON_TODO = "check not built yet (work in progress; see DESIGN.md §5 order of work)"
 NA = {}
